@@ -117,6 +117,9 @@ type scriptedNet struct {
 	silent  map[int]bool
 	wire    *memWire
 	dup     map[int]time.Duration // extra duplicate of hop ttl after this additional delay
+	// routerFirst: the probe with TTL destHop is answered TWICE — a router's time-exceeded (a copy of the
+	// probe that expired one hop earlier on another path) this long BEFORE the destination's own answer
+	routerFirst time.Duration
 }
 
 func (n *scriptedNet) attach() {
@@ -149,6 +152,14 @@ func (n *scriptedNet) attach() {
 			pkt = dst.encode(n.cfg.flow(), p, n.cfg.Target, ttl, seqOfProbe(p))
 		}
 		d := n.delay(ttl)
+		if ttl == n.destHop && n.routerFirst > 0 && n.routerFirst < d {
+			r := netip.MustParseAddr(fmt.Sprintf("10.77.%d.1", ttl))
+			if n.cfg.v6() {
+				r = netip.MustParseAddr(fmt.Sprintf("fd00:77::%x", ttl))
+			}
+			early := te.encode(n.cfg.flow(), p, r, ttl, seqOfProbe(p))
+			time.AfterFunc(d-n.routerFirst, func() { n.wire.Inject(early) })
+		}
 		time.AfterFunc(d, func() { n.wire.Inject(pkt) })
 		if extra, ok := n.dup[ttl]; ok {
 			time.AfterFunc(d+extra, func() { n.wire.Inject(pkt) })
@@ -259,6 +270,20 @@ func TestC06(t *testing.T) {
 					dup[rng.Range(c.Min, c.Max)] = time.Duration(rng.Range(1, 80))*time.Millisecond + sendDelay/2 + time.Duration(rng.Range(1, 999))*time.Microsecond
 				}
 			}
+			// the first destination answer of the run lands on a slot a router's answer already filled
+			routerFirst := time.Duration(0)
+			if i%3 == 1 {
+				routerFirst = time.Duration(rng.Range(100, 900)) * time.Microsecond
+			}
+			// serial engine: the destination's answer is read by the poll that STRADDLES the per-TTL time-out
+			// (the last ReceiveProbe call starts before the time-out and returns the answer after it)
+			straddle := time.Duration(0)
+			if strings.HasPrefix(v, "tcp") && i%3 == 2 && destHop <= c.Max {
+				delayMs |= 1 // time-out = 10 ms mod 20 ms: the last poll ends 10 ms after it
+				straddle = time.Duration(rng.Range(1, 9))*time.Millisecond + 137*time.Microsecond
+				routerFirst = 0
+				dup = map[int]time.Duration{}
+			}
 			var writes []wireWrite
 			var runErr error
 			var hops []*common.ProbeResponse
@@ -281,8 +306,11 @@ func TestC06(t *testing.T) {
 					}
 					d.mu.Unlock()
 				}()
-				net := &scriptedNet{cfg: c, destHop: destHop, silent: silent, wire: wire, dup: dup,
+				net := &scriptedNet{cfg: c, destHop: destHop, silent: silent, wire: wire, dup: dup, routerFirst: routerFirst,
 					delay: func(ttl int) time.Duration {
+						if straddle > 0 && ttl == destHop {
+							return time.Duration(delayMs*10+200)*time.Millisecond + straddle
+						}
 						return time.Duration(base+(ttl*jit)%97)*time.Millisecond + time.Duration(ttl*13+7)*time.Microsecond
 					}}
 				net.attach()
@@ -312,7 +340,7 @@ func TestC06(t *testing.T) {
 					}
 				}
 			})
-			replay := map[string]any{"variant": v, "config": c.oraclePrefix(), "dest_hop": destHop, "send_delay": sendDelay.String(), "silent": fmt.Sprint(silent), "duplicates_after": fmt.Sprint(dup)}
+			replay := map[string]any{"variant": v, "config": c.oraclePrefix(), "dest_hop": destHop, "send_delay": sendDelay.String(), "silent": fmt.Sprint(silent), "duplicates_after": fmt.Sprint(dup), "router_answer_before_destination_answer_same_ttl": routerFirst.String(), "destination_answer_after_the_ttl_timeout_by": straddle.String()}
 			var ttls []int
 			bad := ""
 			for k, w := range writes {
@@ -356,7 +384,7 @@ func TestC06(t *testing.T) {
 				// without late duplicates the engine is reading whenever a reply arrives: delivered = seen.
 				// (A late duplicate read by the serial engine ends a window, and the answer waits in the
 				// queue while the next probe goes out: then only the instant the engine saw it counts.)
-				if after > 1 && len(dup) == 0 {
+				if after > 1 && len(dup) == 0 && routerFirst == 0 {
 					bad = fmt.Sprintf("%d probes emitted after the destination answer was delivered at %s (at most one in flight allowed)", after, destSeenAt)
 				}
 			} else if len(writes) != c.Max-c.Min+1 && runErr == nil {
@@ -364,6 +392,8 @@ func TestC06(t *testing.T) {
 			}
 			_ = hops
 			rep.Hit(fmt.Sprintf("engine:%s:after-dest=%d", v, after))
+			rep.Hit(fmt.Sprintf("engine:router-first=%v", routerFirst > 0))
+			rep.Hit(fmt.Sprintf("engine:straddle=%v:dest-read=%v", straddle > 0, destReadAt >= 0))
 			if bad != "" {
 				rep.Violate(hx.Violation{Kind: "spec", What: "emission discipline violated: " + bad, Sig: map[string]string{"variant": v, "stream": "engine"}, Replay: replay})
 			}
